@@ -365,7 +365,7 @@ func FuncType(r *Reg) reflect.Type {
 	if r.HasErr {
 		out = append(out, ErrorType)
 	}
-	return reflect.FuncOf(in, out, false)
+	return reflect.FuncOf(in, out, r.Variadic && !r.UseIn && len(in) > 0 && in[len(in)-1].Kind() == reflect.Slice)
 }
 
 // Service returns what is passed to Add*: a function value or an instance.
